@@ -32,6 +32,7 @@ func subproto(c *vh.Ctx, m *vh.Model) {
 		c.Fatal("cannot build protocol manager: %v", err)
 	}
 	defer pm.Stop()
+	queueDeliveries(c, m, pm)
 	run := func(what string, code uint64, size uint32, payload []byte) (string, []aqua.VerifReply) {
 		class, replies, pv := pm.HandleOne(code, size, payload, 20*time.Second)
 		rep := H{"kind": "handlemsg", "code": code, "size": size, "payload": vh.Hex(clipb(payload))}
